@@ -126,7 +126,8 @@ func init() {
 			"(spare capacity) or writing external callee — directly or through any module callee, closure or returned alias — is rooted at memory reachable from a parameter; " +
 			"(R12.2) no function outside package initialisation writes the exported defaults, the suite registry or any other package variable (incl. through a pointer copied from them: the nil-parameter path must copy before writing); " +
 			"(R12.3) no reference-typed result of an exported function is rooted at an argument's mutable storage. By-value struct parameters spilled to local cells are distinguished from caller memory by the root (alloc vs param). " +
-			"Not decided: mutation through reflection/unsafe (absent from the library apart from the checked string view), and external callees are trusted per the read-only table.",
+			"Not decided: mutation through reflection/unsafe (absent from the library apart from the checked string view), and external callees are trusted per the read-only table. " +
+			"R12.5 no reference result of an exported function is rooted at package state, a pool or a memoised value (a list built once and handed to every caller).",
 		trusted:  []string{"read-only table of external callees (hmac.New key, hash.Write, url.(*URL).Query, strings/strconv/fmt functions, hex/base32 string codecs)"},
 		quick:    []Config{CfgNative, CfgWasm},
 		thorough: []Config{CfgNative, CfgWasm, Cfg386},
